@@ -20,7 +20,7 @@ Print Assumptions C07_css_expand_safe.
 (* with an already converted table (what the cache does) no hypothesis is left *)
 Theorem C07_css_expand_with_safe :
   forall cfg sn abbr, safe_on (length abbr) (expand_with cfg sn abbr) /\ expand_with cfg sn abbr <> OutOfFuel.
-Proof. intros cfg sn abbr. split; [exact (expand_with_safe cfg sn abbr)|exact (expand_with_fuel cfg sn abbr)]. Qed.
+Proof. exact expand_with_safe_and_fuel. Qed.
 Print Assumptions C07_css_expand_with_safe.
 
 Theorem C07_css_builtin_table_converts : exists sn, convert_snippets css_snippets = Ok sn.
@@ -31,13 +31,13 @@ Print Assumptions C07_css_builtin_table_converts.
    at the start of a token of the input; the fuel suffices *)
 Theorem C07_css_parser_safe :
   forall (vm : bool) (ts : list ctoken), good_final ts (parser vm ts) /\ parser vm ts <> OutOfFuel.
-Proof. intros vm ts. split; [exact (parser_safe vm ts)|exact (parser_fuel_suffices vm ts)]. Qed.
+Proof. exact parser_safe_and_fuel. Qed.
 Print Assumptions C07_css_parser_safe.
 
 (* stage: tokenizer + parser on a string *)
 Theorem C07_css_parse_safe :
   forall (vm : bool) (s : str), safe_on (length s) (css_parse vm s) /\ css_parse vm s <> OutOfFuel.
-Proof. intros vm s. split; [exact (css_parse_safe vm s)|exact (css_parse_fuel vm s)]. Qed.
+Proof. exact css_parse_safe_and_fuel. Qed.
 Print Assumptions C07_css_parse_safe.
 
 (* stage: resolution of one node never fails (int() of a raw snippet's tabstop index is guarded by the regex) *)
